@@ -117,7 +117,10 @@ def check(model, rep):
            'body Jacobian is not built from the BODY screws: ' + (src(r[0].value) if r else '?'))
     jl = M(arm, 'jacobianLink')
     ip, tp = jl.params[1], jl.params[2]
-    il = Inliner(jl)
+    # with the class's private helpers inlined (the prefix slices may come from a helper); FKLink stays a call
+    from ..engine import peval as _pe2
+    jl_flat = _pe2.flatten({n_: f_.node for n_, f_ in arm.methods.items()}, jl.node, depth=2, stop=('_helper_ensure_theta_not_none',), impure=True)
+    il = Inliner(jl, node=jl_flat)
     r = il.returns()
     A_ = 'self.FKLink(%s, %s).inv().adjoint()' % (tp, ip)
     J_ = 'fmr.JacobianSpace(self.screw_list[0:6, 0:%s + 1], %s[0:%s + 1])' % (ip, tp, ip)
